@@ -11,7 +11,7 @@ REPO = os.environ.get('VERIF_REPO', '/repo')
 
 class Lemma:
     def __init__(self, lid, prop, func, instances, replay=None, desc='', expect=(), bounds='',
-                 step_limit=2_000_000, path_cap=200_000):
+                 step_limit=2_000_000, path_cap=200_000, api=False):
         self.id = lid
         self.prop = prop
         self.func = func
@@ -22,6 +22,11 @@ class Lemma:
         self.bounds = bounds
         self.step_limit = step_limit
         self.path_cap = path_cap
+        # api=True: the harness drives the code only through constructors, documented calls and protocol entry points
+        # (no internal state is injected by hand).  Only then is a crash of the code under check that reproduces with the
+        # same exception type on the real package reported as a violation; for state-injecting step lemmas such a crash
+        # may equally mean that a representation changed under the harness, and stays inconclusive.
+        self.api = api
 
     def instances(self, tier):
         inst = self._instances
